@@ -211,12 +211,12 @@ func collectEntryNodes(node Node, m map[reflect.Type]struct{}) {
 		for _, el := range node.Nodes {
 			collectEntryNodes(el, m)
 		}
-	case Not:
-		collectEntryNodes(node.Node, m)
 	case Binding:
 		collectEntryNodes(node.Node, m)
-	case Nil, nil:
-		// this branch is reached via bindings
+	case Not, Nil, nil:
+		// The nil branch is reached via bindings. A negated pattern matches
+		// all the nodes its operand doesn't match, which can be nodes of any
+		// type.
 		for _, T := range allTypes {
 			m[T] = struct{}{}
 		}
